@@ -78,6 +78,23 @@ def spread_cycles():
     out.append(("spread-cycle unused-fragments", "query Q { x }\nfragment X on Node { ...Y }\nfragment Y on Node { ...X }\n"))
     out.append(("spread-cycle self-in-op", "query Q { node { ...X } }\nfragment X on Node { ...X }\n"))
     out.append(("inline-self", "query Q { node { __typename ... on Node { __typename ... on Node { id } } } }\n"))
+    # cycles whose every link is a spread sitting directly under an inline fragment (`... on A { ...G }`): no plain spread
+    # anywhere on the cycle, so only the walk through inline fragments can stop it (C17-r10m1)
+    for n in range(1, 5):
+        for with_tn in (False, True):
+            tn = "__typename " if with_tn else ""
+            # interface: through a field typed with the interface
+            frs = ["fragment F%d on A { id next { %s... on A { ...F%d } } }" % (i, tn, (i + 1) % n) for i in range(n)]
+            out.append(("spread-cycle all-links-in-inline-fragments interface len=%d typename=%s" % (n, with_tn),
+                        "query Q { node { %s...T } }\nfragment T on Node { %sid ... on A { ...F0 } }\n%s\n" % (tn, tn, "\n".join(frs))))
+            # union
+            frs = ["fragment F%d on B { id u { %s... on B { ...F%d } } }" % (i, tn, (i + 1) % n) for i in range(n)]
+            out.append(("spread-cycle all-links-in-inline-fragments union len=%d typename=%s" % (n, with_tn),
+                        "query Q { u { %s... on B { ...F0 } } }\n%s\n" % (tn, "\n".join(frs))))
+            # no field in between: the inline fragment's condition is the fragment's own type
+            frs = ["fragment F%d on Node { %s... on A { ...F%d } }" % (i, tn, (i + 1) % n) for i in range(n)]
+            out.append(("spread-cycle all-links-in-inline-fragments direct len=%d typename=%s" % (n, with_tn),
+                        "query Q { node { %s... on A { ...F0 } } }\n%s\n" % (tn, "\n".join(frs))))
     return out
 
 
